@@ -7,6 +7,7 @@ import Precis.Spec.Rfc5892
 import Precis.Facts.CtxTables
 import Precis.Facts.RegistryId
 import Precis.Facts.RegistryFf
+import Precis.Lemmas.CtxAux
 namespace Precis.C03
 open Precis Precis.Step Precis.Spec Precis.Facts
 
@@ -41,6 +42,13 @@ theorem right_is_ucd63 (cp : Nat) : isRightJoining cp = (jt63 cp == .R) := by
 theorem transparent_is_ucd63 (cp : Nat) : isTransparent cp = Spec.isT cp := by
   rw [isTransparent, tab_transparent]; simpa [Spec.isT, jt63_at] using SF.same_at _ _ transparent_check cp
 
+/-- the table facts in the form the helper lemmas (Lemmas/CtxAux) take them -/
+theorem tabs : CtxAux.Tabs :=
+  ⟨virama_is_ucd63, greek_is_ucd63, hebrew_is_ucd63, hiragana_is_ucd63, katakana_is_ucd63, han_is_ucd63,
+    dual_is_ucd63, left_is_ucd63, right_is_ucd63, transparent_is_ucd63⟩
+
+theorem toSpec_eq : toSpec = CtxAux.toSpec := by funext r; cases r <;> rfl
+
 /-! ### the registry -/
 
 /-- exactly the code points whose derived property is CONTEXTJ or CONTEXTO have a registered rule -/
@@ -49,20 +57,20 @@ theorem registry_exact (cls : Cls) (cp : Nat) :
       (derivedProp cls cp = .contextJ ∨ derivedProp cls cp = .contextO) := by
   cases cls with
   | identifier =>
-    have := SF.all_at id _ registry_check_id cp
-    simp only [SF.zip_at, ← derivedProp_sf, ← getContextRule_sf, id] at this
+    have := SF.all_zip_at _ _ _ registry_check_id cp
+    simp only [← derivedProp_sf, ← getContextRule_sf] at this
     revert this
     cases derivedProp .identifier cp <;> cases getContextRule cp <;> simp
   | freeform =>
-    have := SF.all_at id _ registry_check_ff cp
-    simp only [SF.zip_at, ← derivedProp_sf, ← getContextRule_sf, id] at this
+    have := SF.all_zip_at _ _ _ registry_check_ff cp
+    simp only [← derivedProp_sf, ← getContextRule_sf] at this
     revert this
     cases derivedProp .freeform cp <;> cases getContextRule cp <;> simp
 
 /-- the registered rule is the one RFC 5892 defines for that code point (so it applies to it) -/
 theorem registry_applies (cp : Nat) (r : RuleId) (h : getContextRule cp = some r) :
     (toSpec r).own cp = true ∧ Spec.ruleFor cp = some (toSpec r) := by
-  sorry
+  rw [toSpec_eq]; exact CtxAux.registry_applies cp r h
 
 /-! ### the nine rules -/
 
@@ -71,29 +79,30 @@ condition holds (for labels of any length a Rust `&str` can have) -/
 theorem rule_true_iff (r : RuleId) (l : List Nat) (i : Nat) (hl : l.length < 2 ^ 63) :
     applyRule r l i = .ok true ↔
       ∃ c, l[i]? = some c ∧ (toSpec r).own c = true ∧ Spec.cond (toSpec r) l i = true := by
-  sorry
+  rw [toSpec_eq]; exact CtxAux.rule_true_iff tabs r l i hl
 
 /-- not-applicable only (and always) when the code point at the position is not the rule's own -/
 theorem rule_notapp_iff (r : RuleId) (l : List Nat) (i : Nat) :
     applyRule r l i = .notApplicable ↔ ∃ c, l[i]? = some c ∧ (toSpec r).own c = false := by
-  sorry
+  rw [toSpec_eq]; exact CtxAux.rule_notapp_iff tabs r l i
 
 /-- undefined only when the position, or a neighbour the rule must inspect, lies outside the label -/
 theorem rule_undef_only (r : RuleId) (l : List Nat) (i : Nat) (h : applyRule r l i = .undefined) :
     l[i]? = none ∨ Spec.needsOutside (toSpec r) l i = true := by
-  sorry
+  rw [toSpec_eq]; exact CtxAux.rule_undef_only tabs r l i h
 
 /-- a position outside the label is always Undefined -/
 theorem rule_outside (r : RuleId) (l : List Nat) (i : Nat) (h : l.length ≤ i) :
     applyRule r l i = .undefined := by
-  sorry
+  exact CtxAux.rule_outside r l i h
 
 /-- no `offset ± 1` computation can overflow: the rules never panic (for any `usize` offset) -/
 theorem rule_no_panic (r : RuleId) (l : List Nat) (i : Nat) (hl : l.length < 2 ^ 63) :
     applyRule r l i ≠ .panic := by
-  sorry
+  exact CtxAux.rule_no_panic tabs r l i hl
 
 /-- non-vacuity: ZWNJ between a dual-joining letter + transparent mark and a right-joining letter -/
 example : Spec.cond .zwnj [0x628, 0x64B, 0x200C, 0x64B, 0x627] 2 = true := by decide +kernel
+
 
 end Precis.C03
